@@ -38,7 +38,8 @@ STATE_KINDS = ['metric', 'two_metrics_two_mds', 'alert', 'component', 'operation
 DESCR_KINDS = ['update_alert_condition_source', 'update_alert_signal_condition_signaled', 'update_metric_descriptor_and_state',
                'create_metric', 'delete_leaf', 'delete_subtree', 'update_context_descriptor', 'create_channel_with_child',
                'create_two_children_of_one_parent', 'update_parent_then_create_child', 'delete_two_children_of_one_parent',
-               'create_child_then_update_parent']
+               'create_child_then_update_parent', 'entity_write_context_descriptor_with_new_state',
+               'update_context_descriptor_and_add_state', 'entity_write_metric_descriptor_and_state']
 SYM = 'symbolic: DescriptorVersion, StateVersion, MdibVersion, context StateVersion in N (unconstrained); str payload <= 3 chars; '
 
 
@@ -77,6 +78,15 @@ def obligations(tier):
                   bounds='1 reload_all (initial load) thread x 1 report thread; all interleavings of the recorded lock / _state / buffer '
                          'events consistent with the recorded _state values (engine E3, shared with C06)',
                   claim='a report delivered while the consumer initialises is never lost (it is buffered and replayed, or applied)'))
+    from checks import C07
+    for kd in (('metric', 'descriptor') if tier == 'quick' else ('metric', 'context', 'descriptor', 'alert', 'component')):
+        obs.append(Ob(f'C01.e3.initial_snapshot.vs.{kd}', 'checks.C07', 'ob_snapshot', kind='py', timeout=240,
+                      params={'handler': 'GetMdib', 'kind': kd, 'writers': 1}, functions=C07.F, stubs=C07.STUBS,
+                      bounds=f'1 GetMdib request (what ConsumerMdib.init_mdib loads) x 1 committing {kd} transaction; all interleavings '
+                             'of the recorded events (engine E3, shared with C07)',
+                      claim='the snapshot the consumer starts from is the provider MDIB at exactly the MdibVersion it states; a snapshot '
+                            'labelled v+1 with content of v would make the consumer discard the buffered report of v+1 and keep a '
+                            'stale object for ever'))
     return obs
 
 
